@@ -174,6 +174,19 @@ def check_C03(c):
     c.extra["grid_checked_against_reference"] = checked
     c.extra["grid_inexact_no_claim"] = skipped
     conditional_grid(c)
+    # list / map construction: one element / entry per written one, in order — also when keys evaluate to equal values
+    mk = [("{1: 'x', 2: 'y', 3 - 2: 'z'}", "(m ((n 0 1 0) (s 78)) ((n 0 2 0) (s 79)) ((n 0 1 0) (s 7a)))"),
+          ("{1: 'x', 1.0: 'y'} == {1: 'y'}", "(b 0)"), ("{p: 1, q: 2, u: 3, v: 4}", "(m ((n 0 7 0) (n 0 1 0)) ((n 0 7 0) (n 0 2 0)) ((none) (n 0 3 0)) ((none) (n 0 4 0)))"),
+          ("[p, q, p]", "(l (n 0 7 0) (n 0 7 0) (n 0 7 0))"), ("{'k': 1, 'k': 1}", "(m ((s 6b) (n 0 1 0)) ((s 6b) (n 0 1 0)))"), ("{} == {}", "(b 1)"), ("{1: 2} == {1: 2, 1: 2}", "(b 0)")]
+    mreq = []
+    for t_, _ in mk:
+        mreq += [ctx_line("c", [("p", "v", n(7)), ("q", "v", n(7))]), exec_line("c", t_)]
+    mi, mm = both(mreq)
+    c.add_stream(Stream("map / list construction with equal keys and elements", mreq, mi, mm))
+    for k_, (t_, exp) in enumerate(mk):
+        oc = outcome_of(mi[2 * k_ + 1])
+        if not (oc[0] == "OK" and sexp_str(oc[1]) == exp):
+            c.violation("implementation-vs-property", "a list / map does not hold exactly the written elements / entries in order", {"input_text": t_, "expected": exp, "implementation": mi[2 * k_ + 1]})
     # typed programs (AST-direct and text) against the model
     progs = typed_programs(c, 6000 if c.quick() else 120000)
     run_programs(c, progs, "typed programs")
@@ -1058,7 +1071,10 @@ def check_C17(c):
         exp = "(n %d %d 0)" % (1 if v < 0 else 0, abs(v))
         if len(f) >= 2 and f[1] == exp:
             continue
-        if ty in ("i128", "u128") and abs(v) >= 2 ** 96 and c.finding_listed("KF-C17-from-wide"):
+        if ty in ("i128", "u128") and abs(v) >= 2 ** 96 and c.finding_listed("KF-C17-from-wide") and \
+                ((len(f) >= 2 and f[1] == "(n 0 0 0)") or (a.startswith("PANIC") and v == -2 ** 127)):
+            # the recorded finding is exactly this: such a value silently becomes 0 (i128::MIN panics inside rust_decimal);
+            # anything else there — a negative number for u128::MAX, say — is a different violation
             wide_hit = True
             continue
         c.violation("implementation-vs-property", "Value::from(%s) does not denote the integer given" % ty, {"request": r, "expected": exp, "implementation": a})
@@ -1235,7 +1251,8 @@ def check_C18(c):
     kinds = ["unary", "binary", "postfix", "ternary", "function", "reference", "list", "map", "chain"]
     # the same names under several kinds: a registration for one (kind, name) must not reach another kind with that name
     # … and names a registry might be tempted to treat specially (wildcards, defaults): they are ordinary names
-    shared = ["++", "nm", "-", "*", "_", "default"]
+    # … and pairs of names with equal rolling hashes (h*31 + byte): a registry keyed by a hash of the name would merge them
+    shared = ["++", "nm", "-", "*", "_", "default", "Aa", "BB"]
     named = {"unary": shared, "binary": shared, "postfix": shared, "function": shared + ["max"], "reference": shared + ["b"]}
     A, B = G.ref("a"), G.ref("b")
     fixed = [G.stmt([G.binop("+", G.un("-", A), G.post(B, "++")), G.tern(A, G.call("f", [G.lst([G.num(1)])]), G.mp([(G.num(1), B)]))]),
@@ -1413,6 +1430,23 @@ def check_C13(c):
         if rc != 0 or out != "ok ok ok ok":
             c.violation("implementation-vs-property", "an evaluation concurrent with re-registrations of built-in operators (by equal handlers) did not give the built-in result",
                         {"schedule": "harness: sched rereg-race — one thread re-registers + (infix), - (prefix), ++ (postfix) in a loop; four threads evaluate `1 + 2`, `- 3`, `4 ++`", "implementation": out})
+    # nesting limits are per parse: threads parsing deep (legal) expressions at once do not use up each other's budget;
+    # and a registrar that changes an operator's precedence sees its own latest registration at once, whatever other
+    # threads are parsing meanwhile
+    for i in range(2 if c.quick() else 30):
+        rc, out = sched(["deeprace", 8, 150 if c.quick() else 600], timeout=120)
+        n_rereg += 1
+        c.count("deeprace %d" % i)
+        if rc != 0 or out != " ".join(["ok"] * 8):
+            c.violation("implementation-vs-property", "threads parsing / evaluating a legally nested expression at the same time: a call failed that succeeds alone",
+                        {"schedule": "harness: sched deeprace 8 — eight threads execute and parse `((…(3 + 4)…))` (100 levels) in a loop", "implementation": out})
+        rc, out = sched(["rereg-prec", 3000 if c.quick() else 20000], timeout=120)
+        n_rereg += 1
+        c.count("rereg-prec %d" % i)
+        if rc != 0 or out != "ok parse-errors=0":
+            c.violation("implementation-vs-property", "after register_infix_op returned, the registering thread's own evaluation did not use the registered precedence (or a concurrent parse failed)",
+                        {"schedule": "harness: sched rereg-prec — one thread alternates the precedence of `times` (100 / 130) and evaluates `1 + 2 times 3` after each registration; six threads parse meanwhile",
+                         "implementation": out})
     c.streams.append({"stream": "re-registration concurrent with evaluation (forced and unforced)", "requests": n_rereg, "disagreements": 0, "unmodelled_skipped": 0, "informational_error_kind_drift": 0})
     # (f) a second, long-lived thread tokenizes/evaluates a text, the first thread then registers one of its words as an
     # operator, and the second thread evaluates the same text again — after the registration has returned, so every
